@@ -5,19 +5,20 @@
 (*  G          for every type in Types: every boundary value (one factor at   *)
 (*             a time) with its encoding (cell tree) and its flattened leaves *)
 EXTENDS TlbSchema, Json, TLC, FiniteSets
-CONSTANTS Types, Emit
+CONSTANTS Types, Emit, Pairs
 G == INSTANCE TlbGen WITH Schema <- TheSchema
 TagsOk == \A nm \in DOMAIN TheSchema : G!TagsPrefixFree(nm)
 ASSUME TagsOk
+Vals(nm) == IF Pairs THEN G!TopValues(nm) \cup G!PairValues(nm) ELSE G!TopValues(nm)
 VARIABLE ty
 Init == ty \in Types
 Next == UNCHANGED ty
-Export == Emit => \A v \in G!TopValues(ty) :
+Export == Emit => \A v \in Vals(ty) :
              ~G!TreeFits(G!Encode(ty, v)) \/ PrintT(ToJson([type |-> ty, val |-> v, enc |-> G!Encode(ty, v), flat |-> G!FlattenV(ty, v)]))
-Count == Cardinality(G!TopValues(ty)) >= 1
+Count == Cardinality(Vals(ty)) >= 1
 \* M: the decoder (an independent reading of the schema) inverts the encoder on every generated value: every leaf the
 \* flattener lists for the decoded value is the leaf of the original, and the cell is consumed exactly
-DecEnc == \A v \in G!TopValues(ty) :
+DecEnc == \A v \in Vals(ty) :
              LET e == G!Encode(ty, v) IN
              G!TreeFits(e) => LET d == G!Decode(ty, e) IN d.ok /\ G!FlattenV(ty, d.v) = G!FlattenV(ty, v)
 =============================================================================
